@@ -1,5 +1,5 @@
 (* C08 Registration validated up front. *)
-Require Import Base Regex Route Tree Router RouteSpec.
+Require Import Base Regex Route Tree TreeProofs TreeWf TreeAdd TreeKeys TreeLive TreeAccept TreeComplete Router RouteSpec.
 
 (* In the model a rejected registration is the value None: the router state is unchanged (nothing is
    half-registered), and acceptance is decided entirely at registration time. *)
@@ -10,9 +10,61 @@ Proof. intros. destruct t. cbn. rewrite H. reflexivity. Qed.
 Theorem C08_empty_route_rejected : forall compile t rid, add_route compile t [] rid = None.
 Proof. intros. destruct t. reflexivity. Qed.
 
-(* The full statement - "add_route (tree of rs) r succeeds iff RouteSpec.valid rs r" - is NOT proved
-   yet; valid (declarative, on the list of registered routes) is evaluated against the
-   implementation's accept/reject on every generated registration. *)
+(* ACCEPTED IFF WELL-FORMED AND FREE OF COLLISIONS (TreeAccept.v).  For every tree that registration can
+   have built (invariants [wfo], [live]), every route made of segments of the class [good], a fresh route
+   id and enough fuel (add_route supplies length+1): the registration succeeds if and only if
+   - every segment classifies in the context of the route's own earlier segments ([knews] is defined:
+     each expression compiles, no non-regex value outside a match-all, no bind name reused along the
+     route, no inner empty segment, no second match-all before the end),
+   - no non-final segment is optional, and
+   - none of its forms (the long one; the short one when the last segment is optional) has the segment
+     texts of a registered path ([dupk]: same route already registered, incl. short forms), or a match-all
+     segment where a registered path with the same texts before it has a DIFFERENT match-all in the same
+     role ([clashk]). *)
+Theorem C08_accept_iff : forall compile (good : list elem -> Prop),
+  good [] -> (forall a b, good a -> good b -> render_elems a = render_elems b -> a = b) ->
+  forall fuel root t anc aa segs rid,
+  wfo compile good anc aa t -> live t -> Forall (fun s => good (elems s)) segs -> length segs <= fuel ->
+  (forall p, In p (kpaths t) -> snd p <> rid) ->
+  (add_segs compile (S fuel) root t anc aa segs rid <> None <->
+   exists l, knews compile root anc aa segs = Some l /\ nonfinal_plain segs /\ forall f, In f l -> free_of t f).
+Proof. intros compile good G0 Inj. exact (accept_iff compile good G0 Inj). Qed.
+
+(* the two invariants are those of every tree built by registrations *)
+Theorem C08_invariants_preserved : forall compile (good : list elem -> Prop),
+  good [] -> (forall a b, good a -> good b -> render_elems a = render_elems b -> a = b) ->
+  forall fuel root t anc aa segs rid t',
+  wfo compile good anc aa t -> Forall (fun s => good (elems s)) segs -> live t ->
+  add_segs compile fuel root t anc aa segs rid = Some t' ->
+  wfo compile good anc aa t' /\ live t' /\
+  exists l, knews compile root anc aa segs = Some l /\
+            forall p, In p (kpaths t') <-> In p (kpaths t) \/ In p (kwith_rid rid l).
+Proof.
+  intros compile good G0 Inj fuel root t anc aa segs rid t' W G L H.
+  destruct (add_segs_kok compile good G0 Inj _ _ _ _ _ _ _ _ W G H) as (W' & l & N & P).
+  split; [exact W'|]. split; [exact (add_segs_live compile good G0 Inj _ _ _ _ _ _ _ _ W G L H)|]. eauto.
+Qed.
+
+(* ... and an accepted route is then reachable by its own instances: whatever any of its forms admits is
+   dispatched (to it, or to a route of higher priority) *)
+Theorem C08_accepted_reachable : forall compile (good : list elem -> Prop),
+  good [] -> (forall a b, good a -> good b -> render_elems a = render_elems b -> a = b) ->
+  forall hdr_ok fuel root t segs rid t' l ks path ps,
+  wfo compile good [] false t -> Forall (fun s => good (elems s)) segs ->
+  add_segs compile fuel root t [] false segs rid = Some t' ->
+  news compile root [] false segs = Some l -> In ks l -> adm ks path ps -> hdr_ok rid = true ->
+  mtree hdr_ok t' path <> None.
+Proof.
+  intros compile good G0 Inj hdr_ok fuel root t segs rid t' l ks path ps W G H N HIn A Hh.
+  destruct (add_segs_ok compile good G0 Inj _ _ _ _ _ _ _ _ W G H) as (W' & l' & N' & P).
+  rewrite N in N'. inversion N'; subst l'.
+  apply (mtree_complete hdr_ok t' (wfo_wf compile good _ _ _ W') ks rid path ps); auto.
+  apply P. right. apply (in_map (fun ks0 : list kind => (ks0, rid))). exact HIn.
+Qed.
+
+(* The route-list reading "accepted iff RouteSpec.valid rs r" (valid states the same conditions on the list
+   of registered routes instead of on the tree) is evaluated against the implementation's accept/reject
+   on every generated registration; its equivalence with the statement above is not proved. *)
 
 Example C08_example :
   let cp := fun _ : str => @None re in
@@ -23,3 +75,5 @@ Example C08_example :
 Proof. vm_compute. repeat split. Qed.
 
 Redirect "assum/C08.1" Print Assumptions C08_non_final_optional_rejected.
+Redirect "assum/C08.2" Print Assumptions C08_accept_iff.
+Redirect "assum/C08.3" Print Assumptions C08_accepted_reachable.
